@@ -9,8 +9,8 @@ Not decided: equality of sol.value(objective) with the solver's cost in numbers.
 import ast
 
 from ..core import rule
-from ..model import AnalysisError
-from ..norm import Norm, expected
+from ..model import AnalysisError, nested_functions
+from ..norm import Norm, expected, list_events
 from ..poly import Poly
 from ..paths import walk_no_nested, const_guard
 from ..loops import loop_context, loop_var, classify_iter
@@ -350,3 +350,123 @@ def r05_7(ctx):
 def r05_8(ctx):
     from .c13 import r13_7
     r13_7(ctx)
+
+
+@rule("R05.9", min_instances=10, desc="placeholder resolution (TranscribedPlaceholders): phase-2 results override phase-1 results, keys and replacements are paired from the same table in the same order, substitution runs to a fixed point, an ambiguous result raises")
+def r05_9(ctx):
+    """Every objective term, constraint and sampled expression reaches the NLP through TranscribedPlaceholders.__call__;
+    a key paired with the replacement of another key, or a single substitution pass where placeholders nest
+    (integral of an expression containing at_tf, ...), silently changes the objective."""
+    P = ctx.prog
+    call = P.own_method("TranscribedPlaceholders", "__call__")
+    sc = ctx.scope(call)
+    n = ctx.norm(call)
+    # table accessor: phase i -> pool[i-1]; two tables
+    gi = P.own_method("TranscribedPlaceholders", "__getitem__")
+    rets = [Norm(None).key(r.value) for r in walk_no_nested(gi.node) if isinstance(r, ast.Return)]
+    ctx.check(rets == [str(Norm(None).poly(ast.parse("self.pool[%s-1]" % gi.params[1], mode="eval").body))], "placeholder table of phase i is pool[i-1]", detail="phase/table mapping",
+              expected="return self.pool[i-1]", found=rets, fi=gi)
+    cl = P.own_method("TranscribedPlaceholders", "clear")
+    pools = [st for st in walk_no_nested(cl.node) if isinstance(st, ast.Assign) and ast.unparse(st.targets[0]) == "self.pool"]
+    ok = len(pools) == 1
+    if ok:
+        v = pools[0].value
+        ok = (isinstance(v, ast.ListComp) and Norm(None).poly(v.generators[0].iter.args[0]) == Poly.const(2) and ast.unparse(v.elt) == "HashDict()") or \
+            (isinstance(v, ast.List) and len(v.elts) == 2 and all(ast.unparse(x) == "HashDict()" for x in v.elts))
+    ctx.check(ok, "clear() resets both phase tables to fresh, separate containers", detail="tables shared or not reset", expected="self.pool = [HashDict() for i in range(2)]", found="; ".join(ast.unparse(s) for s in pools), fi=cl)
+    # select(): single entry, else preference, else raise
+    sel = [f for f in nested_functions(call).values() if f.name == "select"]
+    ok = len(sel) == 1
+    if ok:
+        s = sel[0]
+        v = s.params[0]
+        from ..paths import must_on_all_paths
+        rets = [r for r in walk_no_nested(s.node) if isinstance(r, ast.Return)]
+        raises = [r for r in walk_no_nested(s.node) if isinstance(r, ast.Raise)]
+        last = s.node.body[-1]
+        ok = isinstance(last, ast.Raise) and len(rets) == 2
+        scs = ctx.scope(s)
+        singles = [r for r in rets if any(Norm(None).key(t) == Norm(None).key(ast.parse("len(%s)==1" % v, mode="eval").body) and p for t, p in scs.guards(r))]
+        prefs = [r for r in rets if any(isinstance(t, ast.Compare) and isinstance(t.ops[0], ast.In) and ast.unparse(t.comparators[0]) == "preference" and p for t, p in scs.guards(r))]
+        ok = ok and len(singles) == 1 and len(prefs) == 1 and singles[0] is not prefs[0]
+        if ok:
+            pl = scs.enclosing_loops(prefs[0])
+            ok = len(pl) == 1 and ast.unparse(pl[0][1]) == "%s.items()" % v and isinstance(pl[0][0], ast.Tuple) and ast.unparse(prefs[0].value) == ast.unparse(pl[0][0].elts[1]) \
+                and ast.unparse([t for t, p in scs.guards(prefs[0])][-1].left) == ast.unparse(pl[0][0].elts[0])
+            sv = singles[0].value
+            ok = ok and Norm(None).key(sv) in (Norm(None).key(ast.parse("list(%s.values())[0]" % v, mode="eval").body), Norm(None).key(ast.parse("next(iter(%s.values()))" % v, mode="eval").body))
+    ctx.check(ok, "select(): the only result, else the first result whose tag is preferred, else an error", detail="ambiguous placeholder result resolved silently / wrong tag chosen",
+              expected="if len(value)==1: return its value; for k,v in value.items(): if k in preference: return v; raise", found="", fi=call)
+    # phase 2: ks = keys(2) + [k in keys(1) not in table 2]; vs by select over the same table and key, same order
+    ev = {}
+    for nm in ("ks", "vs"):
+        ev[nm] = list_events(sc, nm, key=Norm(None).key)
+    K = lambda t: Norm(None).key(ast.parse(t, mode="eval").body)
+    g2 = lambda g: [x for x in g if "max_phase" in x[0]]
+
+    def under(evts, phase):
+        out = []
+        for kind, val, g in evts:
+            conds = [(c.replace(" ", ""), p) for c, p in g]
+            if ("max_phase==%d" % phase, True) in conds or (phase == 2 and ("max_phase==1", False) in conds and ("max_phase==2", True) in conds):
+                out.append((kind, val))
+        return out
+    k1, v1, k2, v2 = under(ev["ks"], 1), under(ev["vs"], 1), under(ev["ks"], 2), under(ev["vs"], 2)
+    ok1 = k1 == [("set", K("list(self[1])"))] and v1 == [("set", K("[select(self[1][e]) for e in ks]"))]
+    ctx.check(ok1, "phase 1: every phase-1 key is paired with the selection of its own phase-1 result", detail="key/replacement pairing (phase 1)",
+              expected="ks = list(self[1]); vs = [select(self[1][e]) for e in ks]", found="%s / %s" % (k1, v1), fi=call)
+    # the override list: phase-1 keys that have no phase-2 result
+    kd = [d for d in sc.defs.get("k", []) if d.kind == "assign"]
+    okk = len(kd) == 1 and Norm(None).key(kd[0].value) == K("[k for k in self[1].keys() if k not in self[2]]")
+    ctx.check(okk, "phase 2 falls back to a phase-1 result only where phase 2 produced none", detail="phase-1 result used although phase 2 resolved the placeholder (or dropped although it did not)",
+              expected="k = [k for k in self[1].keys() if k not in self[2]]", found=ast.unparse(kd[0].value) if kd else None, fi=call, sample={"fallback": ast.unparse(kd[0].value) if kd else None})
+    kname = "k"
+    ok2 = k2 == [("set", K("list(self[2])")), ("extend", K(kname))] and v2 == [("set", K("[select(self[2][e]) for e in ks]")), ("extend", K("[select(self[1][e]) for e in %s]" % kname))]
+    ctx.check(ok2, "phase 2: phase-2 keys with phase-2 results first, then the fallback keys with their phase-1 results, in lock-step", detail="key/replacement pairing (phase 2)",
+              expected="ks = list(self[2]); vs = [select(self[2][e]) for e in ks]; ks += k; vs += [select(self[1][e]) for e in k]", found="%s / %s" % (k2, v2), fi=call,
+              sample={"ks": str(k2), "vs": str(v2)})
+    if ok2:
+        # order: vs is computed from ks before ks is extended
+        order = []
+        for st in walk_no_nested(call.node):
+            t = None
+            if isinstance(st, ast.Assign) and isinstance(st.targets[0], ast.Name) and st.targets[0].id in ("ks", "vs"):
+                t = ("set", st.targets[0].id)
+            elif isinstance(st, ast.Call) and isinstance(st.func, ast.Attribute) and isinstance(st.func.value, ast.Name) and st.func.value.id in ("ks", "vs") and st.func.attr == "extend":
+                t = ("extend", st.func.value.id)
+            elif isinstance(st, ast.AugAssign) and isinstance(st.target, ast.Name) and st.target.id in ("ks", "vs"):
+                t = ("extend", st.target.id)
+            if t and any("max_phase == 2" in ast.unparse(g) and p for g, p in sc.guards(st)):
+                order.append(t)
+        ctx.check(order.index(("set", "vs")) < order.index(("extend", "ks")), "phase 2: the phase-2 selections are taken before the key list is extended", detail="fallback keys looked up in the phase-2 table",
+                  expected="vs = [...for e in ks] before ks += k", found=str(order), fi=call)
+    rets = [r for r in walk_no_nested(call.node) if isinstance(r, ast.Return) and is_call_to(r.value, "_replace", "self")]
+    ok = len(rets) == 1 and [ast.unparse(a) for a in rets[0].value.args] == [call.params[1], "ks", "vs"] and not sc.guards(rets[0])
+    ctx.check(ok, "__call__ substitutes the collected pairs in the given expressions", detail="substitution call", expected="return self._replace(args, ks, vs)", found="; ".join(ast.unparse(r.value) for r in rets), fi=call)
+    wr = [r for r in walk_no_nested(call.node) if isinstance(r, ast.Return) and r not in rets]
+    ok = len(wr) >= 1 and all(isinstance(r.value, ast.Subscript) and ast.unparse(r.value.slice) == "0" and isinstance(r.value.value, ast.Call) and r.value.value.args
+                                and ast.unparse(r.value.value.args[0]) == "[%s]" % call.params[1] for r in wr)
+    okkw = all({k.arg: ast.unparse(k.value) for k in r.value.value.keywords} in ({}, {"max_phase": "max_phase", "preference": "preference", "verbose": "verbose"}) for r in wr) if ok else False
+    first = wr[0] if wr else None
+    okfirst = first is not None and {k.arg for k in first.value.value.keywords} >= {"max_phase", "preference"}
+    ctx.check(ok and okkw and okfirst, "a single expression is resolved as a one-element list with the same phase and preference", detail="options dropped for non-list arguments",
+              expected="return self([args], max_phase=max_phase, preference=preference, ...)[0]", found="; ".join(ast.unparse(r.value) for r in wr), fi=call)
+    # _replace: fixed point
+    rp = P.own_method("TranscribedPlaceholders", "_replace")
+    scr = ctx.scope(rp)
+    a, ks, vs = rp.params[1:4]
+    wl = [w for w in walk_no_nested(rp.node) if isinstance(w, ast.While)]
+    ok = len(wl) == 1
+    if ok:
+        w = wl[0]
+        nr = ctx.norm(rp)
+        ok = nr.key(w.test) == Norm(None).key(ast.parse("depends_on(vvcat(%s), vvcat(%s))" % (a, ks), mode="eval").body)
+        body = [st for st in w.body if not isinstance(st, ast.Pass)]
+        ok = ok and len(body) == 1 and isinstance(body[0], ast.Assign) and ast.unparse(body[0].targets[0]) == a and Norm(None).key(body[0].value) == Norm(None).key(ast.parse("substitute(%s, %s, %s)" % (a, ks, vs), mode="eval").body)
+        fin = [r for r in rp.node.body if isinstance(r, ast.Return)]
+        ok = ok and len(fin) == 1 and ast.unparse(fin[0].value) == a and scr.order[fin[0]] > scr.order[w]
+    ctx.check(ok, "_replace substitutes until no placeholder is left (nested placeholders)", detail="single substitution pass / wrong termination test", expected="while depends_on(vvcat(args), vvcat(ks)): args = substitute(args, ks, vs); return args",
+              found="; ".join(ast.unparse(w.test) for w in wl), fi=rp)
+    early = [r for r in walk_no_nested(rp.node) if isinstance(r, ast.Return) and scr.guards(r)]
+    ok = all(ast.unparse(r.value) == a and any("DM" in ast.unparse(t) for t, p in scr.guards(r)) for r in early)
+    ctx.check(ok, "_replace returns numeric input unchanged", detail="shortcut", expected="if isinstance(vvcat(args), DM): return args", found="; ".join(ast.unparse(r.value) for r in early), fi=rp)
